@@ -113,7 +113,7 @@ type ContractSet struct {
 }
 
 var funcHdrRe = regexp.MustCompile(`^func\s+(\(([^)]*)\)\s*)?([A-Za-z_][A-Za-z0-9_$.]*)`)
-var clauseRe = regexp.MustCompile(`^([a-z_]+)(\[([A-Za-z0-9_@, -]+)\])?(\s+|$)(.*)$`)
+var clauseRe = regexp.MustCompile(`^([a-z_]+)(\[([A-Za-z0-9_@, .*-]+)\])?(\s+|$)(.*)$`)
 
 func parseRecv(r string) string {
 	r = strings.TrimSpace(r)
